@@ -6,12 +6,22 @@ the insertion order.  For containers of <= 3 elements the six policies are ALL p
 import sys
 import weakref
 
-POLICIES = ('forward', 'reverse', 'rot1', 'rot2', 'swap01', 'swap12')
+POLICIES = ('forward', 'reverse', 'rot1', 'rot2', 'swap01', 'swap12', 'altA', 'altB')
 _policy = ['forward']
+_created = [0]        # containers created since install(): the alternating policies give neighbours opposite orders
 
 
-def permute(items):
+def new_index():
+    _created[0] += 1
+    return _created[0]
+
+
+def permute(items, idx=0):
     p = _policy[0]
+    if p in ('altA', 'altB'):
+        # two containers need not agree on their order (a real memory layout orders every container independently):
+        # containers created one after the other iterate in opposite directions
+        p = 'forward' if (idx % 2 == 0) == (p == 'altA') else 'reverse'
     n = len(items)
     if n < 2 or p == 'forward':
         return items
@@ -33,6 +43,7 @@ class ChoiceSet(set):
     def __init__(self, iterable=()):
         super().__init__()
         self._order = []
+        self._idx = new_index()
         for x in iterable:
             self.add(x)
 
@@ -69,7 +80,7 @@ class ChoiceSet(set):
                 self.add(x)
 
     def __iter__(self):
-        return iter(permute(list(self._order)))
+        return iter(permute(list(self._order), self._idx))
 
 
 class ChoiceFrozenSet(frozenset):
@@ -80,16 +91,18 @@ class ChoiceFrozenSet(frozenset):
                 items.append(x)
         self = super().__new__(cls, items)
         self._order = items
+        self._idx = new_index()
         return self
 
     def __iter__(self):
-        return iter(permute(list(self._order)))
+        return iter(permute(list(self._order), self._idx))
 
 
 class ChoiceWeakSet:
     """minimal WeakSet replacement with controlled iteration order"""
     def __init__(self, data=None):
         self._refs = []
+        self._idx = new_index()
         if data is not None:
             for x in data:
                 self.add(x)
@@ -114,7 +127,7 @@ class ChoiceWeakSet:
         return len(self._live())
 
     def __iter__(self):
-        return iter(permute(self._live()))
+        return iter(permute(self._live(), self._idx))
 
     def copy(self):
         return ChoiceWeakSet(self._live())
@@ -122,6 +135,7 @@ class ChoiceWeakSet:
 
 def install(policy):
     _policy[0] = policy
+    _created[0] = 0
     import usim  # noqa: F401  (make sure all modules are loaded)
     import usim.py  # noqa: F401
     n = 0
